@@ -381,40 +381,8 @@ import io  # noqa: E402
 
 from harness.h_sync import BPMS  # noqa: E402,F401
 
-C19_TEXT = """[Song]
-{
-  Name = "t"
-  Resolution = 192
-}
-[SyncTrack]
-{
-  0 = TS 4
-  0 = B 125000
-  768 = B 62500
-  768 = A 1600000
-}
-[Events]
-{
-  0 = E "section intro"
-  96 = E "lyric la"
-  192 = E "crowd"
-}
-[ExpertSingle]
-{
-  0 = N 0 0
-  96 = N 1 300
-  96 = N 2 100
-  96 = S 2 200
-  200 = E solo
-  800 = N 7 0
-  800 = N 5 0
-}
-[HardDrums]
-{
-  384 = N 3 0
-  200 = N 2 0
-}
-"""
+from harness.h_hist import C19_TEXT  # noqa: E402
+
 
 
 CV = H.part("VF_CV", 0)      # how the chart under test was parsed: 0 default, 1 want_tracks=[], 2 one selected track
@@ -439,35 +407,7 @@ INSTR_SET = [INSTR_ALL[i] for i in range(len(INSTR_ALL)) if i % NPARTS == PART] 
 DIFF_ALL = list(Difficulty)
 
 
-def _norm(v):
-    # timedelta values (the interpreter's or CrossHair's stand-in class) as exact microseconds
-    if hasattr(v, "days") and hasattr(v, "microseconds") and hasattr(v, "seconds"):
-        return ("us", int((v.days * 86400 + v.seconds) * 10**6 + v.microseconds))
-    return v
-
-
-def _ev(e):
-    d = [(f.name, _norm(getattr(e, f.name))) for f in dataclasses.fields(e) if not f.name.startswith("_")]
-    return (type(e).__name__, tuple(d))
-
-
-def observe(chart):
-    md = tuple((f.name, getattr(chart.metadata, f.name)) for f in dataclasses.fields(chart.metadata))
-    st = chart.sync_track
-    sync = (tuple(_ev(e) for e in st.time_signature_events), tuple(_ev(e) for e in st.bpm_events.events),
-            tuple(_ev(e) for e in st.anchor_events), st.bpm_events.resolution, len(st.bpm_events))
-    g = chart.global_events_track
-    glob = (tuple(_ev(e) for e in g.text_events), tuple(_ev(e) for e in g.section_events),
-            tuple(_ev(e) for e in g.lyric_events))
-    tracks = []
-    for ins in list(chart.instrument_tracks.keys()):
-        inner = []
-        for dif in list(chart.instrument_tracks[ins].keys()):
-            t = chart.instrument_tracks[ins][dif]
-            inner.append((dif.name, t.instrument.name, t.difficulty.name, tuple(_ev(e) for e in t.note_events),
-                          tuple(_ev(e) for e in t.star_power_events), tuple(_ev(e) for e in t.track_events)))
-        tracks.append((ins.name, tuple(inner)))
-    return (md, sync, glob, tuple(tracks), len(chart.instrument_tracks))
+from harness.h_hist import _ev, _norm, observe  # noqa: E402,F401
 
 
 _OBS0 = observe(_PRISTINE) if _PRISTINE is not None else None
@@ -885,83 +825,3 @@ def route_multi(pi: int, where: int, use_none: bool, s0: bool, s1: bool, s2: boo
     return done(ok)
 
 
-# ---------------------------------------------------------------------------------------------
-# C17 (history fragment): a parse is unaffected by what was parsed before in this process; the
-# reference for every text is its parse as the FIRST parse of a fresh interpreter
-# ---------------------------------------------------------------------------------------------
-import json as _json  # noqa: E402
-import subprocess as _subprocess  # noqa: E402
-import sys as _sys  # noqa: E402
-
-_T_A = C19_TEXT
-_T_B = C19_TEXT.replace("0 = B 125000", "0 = B 120000").replace("768 = B 62500", "768 = B 60000")       # same ticks, other tempos
-_T_C = C19_TEXT.replace("Resolution = 192", "Resolution = 480")                                            # same lines, other resolution
-_T_D = C19_TEXT.replace("[HardDrums]", "[HardDrumsX]").replace("  200 = E solo", "  200 = E solo\n  junk line\n  96 = N 9 0")
-_T_E = C19_TEXT.replace("[Events]", "[Eventz]")                                                            # missing required section
-_T_F = C19_TEXT.replace("  0 = N 0 0\n", "  900 = N 0 0\n  0 = N 5 0\n")                                   # unsorted + forced first
-_T_G = C19_TEXT.replace("96 = S 2 200", "0 = S 2 97").replace("  96 = N 2 100\n", "  96 = N 2 100\n  96 = N 6 0\n")
-HIST_TEXTS = [_T_A, _T_B, _T_C, _T_D, _T_E, _T_F, _T_G]
-HIST_SELECT = [None, None, None, None, None, None, [(Instrument.GUITAR, Difficulty.EXPERT)]]
-
-
-def _hist_observe(i):
-    # run natively: the texts are concrete on every path, and CrossHair substitutes its own
-    # (float-based) timedelta model under tracing, which is not what a fresh interpreter computes
-    with H.untraced():
-        try:
-            ch = Chart.from_file(io.StringIO(HIST_TEXTS[i]), want_tracks=HIST_SELECT[i])
-        except Exception as e:  # noqa: BLE001
-            return "raised " + type(e).__name__
-        return repr(observe(ch)) + " || " + str(ch)
-
-
-_HIST_PROG = '''
-import json, logging, sys
-logging.disable(logging.CRITICAL)
-sys.path[:0] = %r
-import harness.h_chart as M
-print("REF " + json.dumps(M._hist_observe(int(sys.argv[1]))))
-'''
-
-
-def _fresh_refs():
-    if H.part("VF_HIST_CHILD", 0):
-        return None
-    import os as _o
-    env = dict(_o.environ)
-    env["VF_HIST_CHILD"] = "1"
-    out = []
-    for i in range(len(HIST_TEXTS)):
-        p = _subprocess.run([_sys.executable, "-c", _HIST_PROG % ([p_ for p_ in _sys.path if p_],), str(i)], env=env,
-                            capture_output=True, text=True, timeout=120)
-        ref = None
-        for ln in p.stdout.splitlines():
-            if ln.startswith("REF "):
-                ref = _json.loads(ln[4:])
-        if ref is None:
-            raise RuntimeError("fresh-interpreter reference parse failed: " + p.stderr[-300:])
-        out.append(ref)
-    return out
-
-
-_HIST_REFS = _fresh_refs() if H.part("VF_HIST", 0) else None
-HLEN = H.part("VF_HLEN", 1)
-
-
-def history_free(x1: int, x2: int, y: int) -> bool:
-    """
-    pre: 0 <= x1 < len(HIST_TEXTS) and 0 <= x2 < len(HIST_TEXTS) and 0 <= y < len(HIST_TEXTS)
-    pre: HLEN >= 2 or x2 == 0
-    post: _
-    """
-    import logging
-    logging.disable(logging.CRITICAL)
-    try:
-        i1, i2, iy = H.pick(list(range(7)), x1), H.pick(list(range(7)), x2), H.pick(list(range(7)), y)
-        _hist_observe(i1)
-        if HLEN >= 2:
-            _hist_observe(i2)
-        got = _hist_observe(iy)
-    finally:
-        logging.disable(logging.NOTSET)
-    return done(got == _HIST_REFS[iy])
